@@ -39,6 +39,25 @@ fn mapped(a: SocketAddr) -> SocketAddr {
         },
     }
 }
+/// A third identity E whose key is Ed25519 (handshake signatures under such keys are not
+/// supported: nothing can prove to be E). V's application knows E's record.
+fn e_key() -> discv5::enr::CombinedKey {
+    let mut b = [0x22u8; 32];
+    discv5::enr::CombinedKey::ed25519_from_bytes(&mut b).expect("ed25519 key")
+}
+fn e_record() -> Enr {
+    util::enr4(&e_key(), 1, util::v4(10, 0, 0, 77, 9000))
+}
+fn e_id() -> NodeId {
+    e_record().node_id()
+}
+/// The deprecated IPv4-compatible IPv6 spelling ::a.b.c.d of an IPv4 socket address.
+fn compatible(a: SocketAddr) -> SocketAddr {
+    match a {
+        SocketAddr::V4(v4) => SocketAddr::new(v4.ip().to_ipv6_compatible().into(), v4.port()),
+        other => other,
+    }
+}
 fn m_id() -> NodeId {
     util::node_id(&m_key())
 }
@@ -72,9 +91,9 @@ fn m_record(variant: u8, x: &Enr) -> Option<Enr> {
 }
 
 /* event codes ------------------------------------------------------------------------ */
-// 0x01: MsgAs      claim (0 X, 1 M) << 8 | src (0 addr_M, 1 addr_X)
+// 0x01: MsgAs      claim (0 X, 1 M, 2 E = an Ed25519 identity V's application knows) << 8 | src (0 addr_M, 1 addr_X)
 // 0x02: Handshake  challenge idx << 16 | claim << 12 | record << 8 | sig
-// 0x03: Way        active-request idx << 8 | src (0 the request's destination, 1 addr_M, 2 destination IP with another port, 3 IPv4-mapped form of the destination)
+// 0x03: Way        active-request idx << 8 | src (0 the request's destination, 1 addr_M, 2 destination IP with another port, 3 IPv4-mapped / 4 IPv4-compatible form of the destination)
 // 0x04: Replay     log idx << 8 | src (0 original, 1 addr_M, 2 IPv4-mapped form of the original)
 // 0x05: Answer     shape 0..7 (M answers V's oldest request to M)
 // 0x08: MRequest   M sends a PING under the session keys it shares with V (once)
@@ -143,11 +162,14 @@ impl Driver for Attack {
             out.push((Ev::Ext(code(1, 0 << 8 | 0)), 1));
             out.push((Ev::Ext(code(1, 0 << 8 | 1)), 1));
             out.push((Ev::Ext(code(1, 1 << 8 | 0)), 1));
+            if !w.cfg.extra_known.is_empty() {
+                out.push((Ev::Ext(code(1, 2 << 8 | 0)), 1));
+            }
         }
         for (ci, (addr, _)) in challenges_of(w).iter().enumerate() {
             // the attacker answers challenges sent to addresses it can use: its own, or X's
             // address while X itself is silent (spoofed source, on-path attacker)
-            let claims: Vec<u32> = if addr.node_id == w.nodes[X].id { vec![0] } else if addr.node_id == m_id() { vec![1] } else { vec![] };
+            let claims: Vec<u32> = if addr.node_id == w.nodes[X].id { vec![0] } else if addr.node_id == m_id() { vec![1] } else if addr.node_id == e_id() { vec![2] } else { vec![] };
             for cl in claims {
                 for r in &self.handshake_records {
                     for s in &self.handshake_sigs {
@@ -180,6 +202,7 @@ impl Driver for Attack {
                     out.push((Ev::Ext(code(3, (ai as u32) << 8 | 1)), 1));
                     out.push((Ev::Ext(code(3, (ai as u32) << 8 | 2)), 1));
                     out.push((Ev::Ext(code(3, (ai as u32) << 8 | 3)), 1));
+                    out.push((Ev::Ext(code(3, (ai as u32) << 8 | 4)), 1));
                 }
             }
         }
@@ -219,13 +242,21 @@ impl Driver for Attack {
             let x_addr = w.nodes[X].addr;
             match kind {
                 1 => {
-                    let claim = if (arg >> 8) & 0xf == 0 { x_id } else { m_id() };
+                    let claim = match (arg >> 8) & 0xf {
+                        0 => x_id,
+                        1 => m_id(),
+                        _ => e_id(),
+                    };
                     let src = if arg & 0xf == 0 { m_addr() } else { x_addr };
                     Attack::send(w, src, VPacket::new_random(&claim)).await;
                 }
                 2 => {
                     let ci = (arg >> 16) as usize;
-                    let claim = if (arg >> 12) & 0xf == 0 { x_id } else { m_id() };
+                    let claim = match (arg >> 12) & 0xf {
+                        0 => x_id,
+                        1 => m_id(),
+                        _ => e_id(),
+                    };
                     let rec = ((arg >> 8) & 0xf) as u8;
                     let sig = (arg & 0xf) as u8;
                     let chals = challenges_of(w);
@@ -285,8 +316,9 @@ impl Driver for Attack {
                         1 => m_addr(),
                         // the request's destination IP, another port
                         2 => SocketAddr::new(a.addr.socket_addr.ip(), a.addr.socket_addr.port() + 1),
-                        // the other spelling of the destination: IPv4-mapped IPv6 form, same port
-                        _ => mapped(a.addr.socket_addr),
+                        // other spellings of the destination, same port: IPv4-mapped and IPv4-compatible IPv6
+                        3 => mapped(a.addr.socket_addr),
+                        _ => compatible(a.addr.socket_addr),
                     };
                     let mut idn = [0u8; 16];
                     idn[0] = w.scratch.len() as u8 + 1;
@@ -482,7 +514,7 @@ impl Driver for Attack {
 
 pub fn configs(thorough: bool) -> Vec<(String, HCfg)> {
     let m_enr = util::enr4(&m_key(), 1, m_addr());
-    let base = |w: Vec<Req>, known_seq: u64| HCfg { nodes: 2, workload: w, allow_drop: false, allow_dup: false, allow_reorder: false, allow_early_timer: false, ghost: Some((m_enr.clone(), m_addr(), true)), known_seq, ..Default::default() };
+    let base = |w: Vec<Req>, known_seq: u64| HCfg { extra_known: vec![e_record()], nodes: 2, workload: w, allow_drop: false, allow_dup: false, allow_reorder: false, allow_early_timer: false, ghost: Some((m_enr.clone(), m_addr(), true)), known_seq, ..Default::default() };
     let mut out = vec![
         ("x-silent".to_string(), base(vec![], 1)),
         ("x-known-seq5".to_string(), base(vec![], 5)),
@@ -545,7 +577,8 @@ pub fn replay(payload: &serde_json::Value, prop: &str) {
 
 /// Runs the attacker worlds and returns (stats, violations for `prop`).
 pub fn explore(prop: &str, thorough: bool, budget_s: f64, k_max: u32) -> (mc::Stats, Vec<mc::Violation>, Vec<serde_json::Value>) {
-    let monitors = Monitors { c03: prop == "C03", c04: prop == "C04", c13: prop == "C13", c15: false, c19: prop == "C19", c20: prop == "C14" || prop == "C20" };
+    // (C01 speaks of this node's own *fresh* WHOAREYOU: it reads C03's expired-challenge clause)
+    let monitors = Monitors { c03: prop == "C03" || prop == "C01", c04: prop == "C04", c13: prop == "C13", c15: false, c19: prop == "C19", c20: prop == "C14" || prop == "C20" };
     let mut d = driver(thorough);
     // partial passing of a challenge lifetime matters to the expiry clause of C03
     d.halves = thorough || prop == "C03";
@@ -594,7 +627,11 @@ pub fn explore(prop: &str, thorough: bool, budget_s: f64, k_max: u32) -> (mc::St
             let d = &d_world;
             // only the clauses read for this property (C02 reads C01's attribution clause)
             let mut cfg = cfg.clone();
-            cfg.focus = if prop == "C02" { vec!["C02".to_string(), "C01".to_string()] } else { vec![prop.to_string()] };
+            cfg.focus = match prop {
+                "C02" => vec!["C02".to_string(), "C01".to_string()],
+                "C01" => vec!["C01".to_string(), "C03:expired-challenge-accepted".to_string()],
+                _ => vec![prop.to_string()],
+            };
             let cfg = &cfg;
             let prefix = prefix_of(name);
             let stats = mc::explore(
@@ -635,6 +672,10 @@ pub fn explore(prop: &str, thorough: bool, budget_s: f64, k_max: u32) -> (mc::St
                 // the application as coming from P that P's side never encrypted
                 let also: Vec<String> = v.replay["also"].as_array().map(|a| a.iter().filter_map(|x| x.as_str().map(|s| s.to_string())).collect()).unwrap_or_default();
                 let attributed = also.iter().chain(std::iter::once(&v.key)).find(|k| k.starts_with("C01:attributed-without-proof:Request") || k.starts_with("C01:attributed-without-proof:Response")).cloned();
+                if prop == "C01" && v.key == "C03:expired-challenge-accepted" {
+                    v.key = "C01:stale-challenge-answered".into();
+                    v.clause = "a party is treated as node X only if it answered this node's own fresh WHOAREYOU".into();
+                }
                 if let (true, Some(k)) = (prop == "C02", attributed) {
                     v.key = k.replace("C01:attributed-without-proof", "C02:forged-attribution");
                     v.clause = "every request or response handed to the application as coming from peer P was encrypted by P's side under keys of a handshake P completed with this node".into();
@@ -670,6 +711,11 @@ pub fn run_c01() {
     rep.set("evaluations", stats.executions);
     rep.set("distinct_nontrivial", stats.states);
     rep.set("attacker_move_bound_K", k as u64);
+    // service level: a who-are-you query (any unauthenticated packet claiming X's id causes one)
+    // changes nothing about X
+    let (queries, svc) = crate::ssim::c01_service_level();
+    rep.set("service_level_whoareyou_queries", queries);
+    let found: Vec<mc::Violation> = found.into_iter().chain(svc.into_iter()).collect();
     rep.set("exhaustive", stats.exhaustive);
     if let Some(c) = &stats.cap {
         rep.set("cap", c.clone());
